@@ -41,7 +41,7 @@ class T:
         return _T.outside_bad(rng, xs)
 
 
-RULE = ("requests are drawn from VERIF_SEED: tables as in C09 (3..600 knots, four spacing laws, four ordinate laws, "
+RULE = ("requests are drawn from VERIF_SEED: tables as in C09 (3..1000 knots, plus a deterministic family with the unique extreme on every knot around multiples of 32/64 and at the ends, four spacing laws, four ordinate laws, "
         "power-of-two unit factors), limit pairs inside one interval / spanning many / at knots / reversed / in the 1% "
         "zone, prefactors (+,-,tiny,huge) set by Set_Prefactor and Multiply before and between queries; a case is "
         "non-trivial when the model answers ok/err and is counted once per distinct (family, call kind, table-size "
@@ -117,10 +117,16 @@ def gen_ext(rng, tier, meta):
     xs, ys, xd, fd, xs2, ys2 = table(rng, tier)
     P, p = pref_ops(rng)
     x1, x2 = limits(rng, xs2)
-    inside = [x for x in xs2 if x1 <= x <= x2]
-    allknots = len(inside) <= 80
-    if not allknots:
-        inside = rng.sample(inside, 80)
+    return build_ext(rng, meta, xs, ys, xd, fd, xs2, ys2, P, p, x1, x2)
+
+
+def build_ext(rng, meta, xs, ys, xd, fd, xs2, ys2, P, p, x1, x2, fam="ext"):
+    idx = [i for i, x in enumerate(xs2) if x1 <= x <= x2]
+    allknots = len(idx) <= 80
+    if not allknots:   # keep the knots carrying the extreme ordinates of the range, sample the others
+        ext = {min(idx, key=lambda i: ys2[i]), max(idx, key=lambda i: ys2[i])}
+        idx = sorted(ext | set(rng.sample(idx, 78)))
+    inside = [xs2[i] for i in idx]
     samples = [x1, x2] + inside
     lo, hi = max(x1, xs2[0]), min(x2, xs2[-1])
     for _ in range(30):
@@ -133,9 +139,60 @@ def gen_ext(rng, tier, meta):
     samples += [xs2[0], xs2[-1]]
     ops = P + ["m %s %s" % (hx(x1), hx(x2)), "M %s %s" % (hx(x1), hx(x2)), "gm", "gM"] + ["I %s" % hx(s) for s in samples]
     rq = "%s %d %s" % (head(xs, ys, xd, fd), len(ops), " ".join(ops))
-    meta[rq] = dict(fam="ext", np=len(P), nin=nin, allknots=allknots, p=p, n=len(xs), span=len(inside),
+    meta[rq] = dict(fam="ext", gen=fam, np=len(P), nin=nin, allknots=allknots, p=p, n=len(xs), span=len(inside),
                     ymax=max(abs(y) for y in ys2), zone=(x1 < xs2[0] or x2 > xs2[-1]), xs=xs2, ys=ys2)
     return rq
+
+
+BLOCK_SIZES = [65, 100, 130, 200, 300, 1000]
+
+
+def block_ks(n):
+    ks = list(range(30, 35)) + list(range(62, 67)) + list(range(126, 131)) + [n - 2, n - 1, 0, 1]
+    if n > 260:
+        ks += [191, 192, 255, 256]
+    if n > 700:
+        ks += [511, 512, 639, 640, 959, 960]
+    return sorted({k for k in ks if 0 <= k < n})
+
+
+def gen_block(rng, tier, meta):
+    """large tables whose unique maximum / minimum sits on knot k, for every k around multiples of 32 and 64 and at
+    the ends; ranges that contain k as an interior knot and start and end in other 64-knot blocks; prefactors +1, -3"""
+    R = []
+    sizes = BLOCK_SIZES if tier == "thorough" else [65, 100, 130, 200]
+    jobs = [(n, k) for n in sizes for k in block_ks(n)]
+    if tier != "thorough":
+        jobs += [(300, k) for k in (63, 64, 191, 255, 256, 298)] + [(1000, k) for k in (63, 511, 639, 640, 959, 998)]
+    for n, k in jobs:
+        for sign in (1.0, -1.0):
+            xs = [float(i) for i in range(n)] if (n + k) % 2 else T.fix_increasing(T.make_xs(rng, n, "random"))
+            ys = [1.0 + 0.01 * rng.uniform(-1, 1) for _ in range(n)]
+            ys[k] = 1.0 + 4.0 * sign          # the unique extreme of the whole table
+            b = k // 64
+            lo_i = rng.randint(max(0, 64 * b - 40), 64 * b - 1) if b > 0 else rng.randint(0, max(0, k - 1))
+            hi_lo = 64 * (b + 1)
+            hi_i = rng.randint(hi_lo, min(n - 2, hi_lo + 40)) if hi_lo <= n - 2 else rng.randint(min(k, n - 2), n - 2)
+            ranges = [(T.point(rng, xs, lo_i, "in"), T.point(rng, xs, hi_i, "in"))]
+            a_i = rng.randint(max(0, k - 70), max(0, k - 1)); b_i = rng.randint(min(k, n - 2), min(n - 2, k + 70))
+            ranges.append((T.point(rng, xs, a_i), T.point(rng, xs, b_i)))
+            for ri, (x1, x2) in enumerate(ranges):
+                x1, x2 = min(x1, xs[k]), max(x2, xs[k])
+                prefs = (([], 1.0), (["P %s" % hx(-3.0)], -3.0))
+                if ri == 1 and tier != "thorough":
+                    prefs = prefs[(n + k) % 2:(n + k) % 2 + 1]
+                for P, p in prefs:
+                    R.append(build_ext(rng, meta, xs, ys, -1.0, -1.0, xs, ys, P, p, x1, x2, fam="block"))
+    # random large tables, random ranges
+    for _ in range(120 if tier == "thorough" else 24):
+        n = rng.randint(65, 1000)
+        xs = T.fix_increasing(T.make_xs(rng, n, rng.choice(["uniform", "random", "geometric", "clustered"])))
+        ys = T.make_ys(rng, n, rng.randrange(4))
+        i, j = sorted((rng.randint(0, n - 2), rng.randint(0, n - 2)))
+        x1, x2 = T.point(rng, xs, i), T.point(rng, xs, j)
+        P, p = pref_ops(rng)
+        R.append(build_ext(rng, meta, xs, ys, -1.0, -1.0, xs, ys, P, p, min(x1, x2), max(x1, x2), fam="block"))
+    return R
 
 
 def exact_mid(b, b2):
@@ -269,6 +326,7 @@ def generate(tier, seed, ctx):
     th = tier == "thorough"
     for _ in range(1500 if th else 220):
         R.append(gen_ext(rng, tier, meta))
+    R += gen_block(rng, tier, meta)
     for _ in range(1500 if th else 220):
         R.append(gen_add(rng, tier, meta))
     for _ in range(1500 if th else 220):
@@ -408,7 +466,7 @@ def compare(rq, impl, model, ctx):
     op = rq.split(" ", 1)[0]
     twod = op == "c08.seq2"
     meta = ctx.get("meta", {}).get(rq) or dict(fam="replay", np=0, p=1.0, n=0, span=0)
-    bump(ctx, "family." + meta["fam"])
+    bump(ctx, "family." + meta.get("gen", meta["fam"]))
     fs, both = std_outcome(rq, impl, model)
     if tag(model) == "err":
         ctx["nontrivial"].add((meta["fam"], "err", meta["n"] > 8))
